@@ -71,9 +71,16 @@ def shaped(tier):
     return gen
 
 
+def real_cli():
+    for seed, width, length, fd in ((7, 2, 3, False), (8, 3, 1, True), (9, 1, 2, False)):
+        yield dict(kind="cli", seed=seed, width=width, length=length, rb=0.1, lb=0.2, tb=0.3, lt=0.4, max_reward=6,
+                   force_down=fd, subprocess=True)
+
+
 def phases(tier):
     side = 6 if tier == "quick" else 8
-    return [Phase("tall-wide-boards", enum=shaped(tier), note="structural clauses on tall / wide / large boards"),
+    return [Phase("real-command-line", enum=real_cli,
+                  note="python roberta_generator.py ... as a subprocess; bytes compared with the in-process run"),Phase("tall-wide-boards", enum=shaped(tier), note="structural clauses on tall / wide / large boards"),
             Phase("cli-parameter-sets", strategy=lambda: cli_cases(side), examples=(80, 3000)),
             Phase("manual-entry-point", strategy=manual_cases, examples=(40, 1200))]
 
@@ -218,6 +225,24 @@ def check_case(case):
             v.fail("generator-raises", f"{label}: {type(e).__name__}: {str(e)[:150]}", sig=type(e).__name__)
             return v
         fd = case["force_down"]
+        if case.get("subprocess"):
+            import subprocess
+            import sys
+            v.cls("real_subprocess")
+            d = boards.clean_scratch()
+            env = dict(os.environ, PYTHONDONTWRITEBYTECODE="1")
+            env.pop("PYTHONPATH", None)
+            p = subprocess.run([sys.executable, os.path.join(r.path, "roberta_generator.py")] + args, cwd=d, env=env,
+                               capture_output=True, text=True, timeout=300)
+            got = {}
+            for name in sorted(os.listdir(os.path.join(d, "inputs"))):
+                with open(os.path.join(d, "inputs", name), "rb") as f:
+                    got[name] = f.read()
+            if p.returncode != 0 or got != files:
+                v.fail("command-line-differs", f"python roberta_generator.py {' '.join(args)} exited {p.returncode} and "
+                                               f"wrote {sorted(got)}; in-process main() wrote {sorted(files)}; "
+                                               f"stderr {p.stderr[-200:]}")
+                return v
     else:
         b = case["board"]
         label = f"create_sg_from_board(moves={b['moves']}, rewards={b['rewards']}, loose={b['loose']}, " \
